@@ -88,3 +88,12 @@ claim('C15',
       "likewise; module scan for randomness, clocks and mutable module state.",
       "Trusted: the interpreter's view/copy rules for numpy; csr_array copies its inputs.",
       "effect and alias analysis by abstract interpretation (write events on read-only storage, object-graph reachability) + AST scan", "DESIGN.md 5 C15")
+
+claim('C13',
+      "Static formula analysis: the body of each of the 16 limiter branches and of the fallback is converted from its syntax tree into an exact "
+      "piecewise-rational function of r (Fraction coefficients; break points from |r|, min/max, comparisons; Sturm sequences) and compared on "
+      "every piece and break point with the published closed form; totality (no denominator root inside a piece, finite break-point values), "
+      "psi(1)=1, 0<=psi<=min(2r,4) on r>0, zero on r<=0 for the clip family, fallback==SUPERBEE, degree<=3 are decided on that representation; "
+      "_fsign is analysed the same way (total, never 0) and a taint analysis shows every field-dependent divisor in the 9 TVD builders goes through it.",
+      "Trusted: the reference table of published forms (citations in the checker); exact arithmetic. Overflow beyond 1e100 not decided.",
+      "AST -> exact piecewise-rational normal form (Sturm root counting) compared with a reference table; taint analysis of divisors", "DESIGN.md 5 C13")
